@@ -26,6 +26,13 @@ def worlds : Node → List Nat
   | access a b => [a, b]
   | _ => []
 
+/-- the world labels a node is *about* for the semantics: a sentence node without world sits at label 0 -/
+def worldsSem : Node → List Nat
+  | sent _ _ (some w) => [w]
+  | sent _ _ none => [0]
+  | access a b => [a, b]
+  | _ => []
+
 /-- wire: n <sent> +|-|_ <w>|_   /  r w1 w2  /  f <name>  /  e  -/
 def parse (ts : Wire.Toks) : Option (Node × Wire.Toks) :=
   match ts with
